@@ -9,10 +9,19 @@ that is removed when the driver exits.
 
 Per operation and run: outcome code (0 frame, 1 StopIteration, 2 an exception out of next(),
 4 seek ok, 5 seek ValueError, 6 seek before the first frame, 7 seek on a closed iterator,
-8 close, 9 size / terminal change), the frame (numbered per case: equal strings = equal numbers),
+8 close, 9 a change of the size setting or of the environment), the frame (numbered per case: equal strings = equal numbers),
 image.tell(), loop_no, images the library opened for the iterator and has not closed, and the
 RENDER REQUESTS of the operation: every call of `image._render_image` as (image._seek_position,
 index of image.rendered_size, "the PIL image handed over was already closed").
+
+
+Round 9: the ENVIRONMENT of the rendered size has three components - terminal size (op `term`),
+cell ratio (op `ratio` [num, den] -> `term_image.set_cell_ratio(num / den)`, text styles) and cell
+size (op `cell` [w, h] -> the `get_cell_size` stub, graphics styles) - and the size SETTING may
+change KIND during the iterator's life: `size` [w, _] = `set_size(width=w)` (fixed), `dsize` name =
+`image.size = Size[name]` (dynamic); `size0` = the setting the image is constructed with
+(["F", w] / ["D", name]; default: `dyn` -> Size.FIT, else width 4).  `settings` reports the size
+setting in force after every operation (["F", w, h] / ["D", member index]).
 
 Everything reported is an integer, a bool, a short string or a list of those."""
 import implenv
@@ -27,7 +36,8 @@ import tempfile
 
 from PIL import Image
 from term_image.exceptions import TermImageError
-from term_image.image import BlockImage, ImageIterator, ITerm2Image, KittyImage
+import term_image
+from term_image.image import BlockImage, ImageIterator, ITerm2Image, KittyImage, Size
 from term_image.image import common as _common
 
 tests.set_cell_size((10, 20))
@@ -90,6 +100,8 @@ def construct(case):
     kind, fmt = case.get("source", "pil"), case.get("fmt", "GIF")
     path, content = source_bytes(case["frames"], fmt)
     kw = {} if case.get("dyn") else {"width": 4}
+    if case.get("size0"):
+        kw = {"width": case["size0"][1]} if case["size0"][0] == "F" else {}
     keep = None
     if kind == "file":
         image = cls.from_file(path, **kw)
@@ -106,7 +118,17 @@ def construct(case):
     else:
         keep = REAL_OPEN(io.BytesIO(content))
         image = cls(keep, **kw)
+    if case.get("size0") and case["size0"][0] == "D":
+        image.size = Size[case["size0"][1]]
     return image, keep
+
+
+DYN = ["FIT", "FIT_TO_WIDTH", "ORIGINAL", "AUTO"]
+
+
+def setting_of(image):
+    z = image.size
+    return ["D", DYN.index(z.name)] if isinstance(z, Size) else ["F", int(z[0]), int(z[1])]
 
 
 class OpenTracker:
@@ -158,10 +180,13 @@ def hash_box_injective():
 
 def run_one(case, cached):
     saved_ts = _common.get_terminal_size
-    _common.get_terminal_size = lambda: os.terminal_size((80, 30))
+    cols0, lines0 = case.get("term0", [80, 30])
+    _common.get_terminal_size = lambda: os.terminal_size((cols0, lines0))
+    term_image._cell_ratio = 0.5
+    tests.set_cell_size((10, 20))
     image, keep = construct(case)
     fail = case.get("fail")  # [frame number, rendered width]: rendering that frame at that width fails
-    res = {"rows": [], "reqs": [], "exc": [], "closed_src": 0}
+    res = {"rows": [], "reqs": [], "exc": [], "closed_src": 0, "settings": []}
     cur = []
     tracker = OpenTracker()
     real_render = image._render_image
@@ -188,6 +213,7 @@ def run_one(case, cached):
             res["cache_on"] = bool(it._cached)
             res["n"] = image.n_frames
             res["z0"] = size_index(image)
+            res["g0"] = setting_of(image)
             for o in case["ops"]:
                 del cur[:]
                 code, frame, exc = 9, -1, ""
@@ -196,6 +222,12 @@ def run_one(case, cached):
                     _common.get_terminal_size = lambda cols=cols, lines=lines: os.terminal_size((cols, lines))
                 elif o[0] == "size":
                     image.set_size(width=o[1][0])
+                elif o[0] == "dsize":
+                    image.size = Size[o[1]]
+                elif o[0] == "ratio":  # the cell ratio changes (what text-based styles resolve a dynamic size with)
+                    term_image.set_cell_ratio(o[1][0] / o[1][1])
+                elif o[0] == "cell":  # the terminal's cell size changes (graphics-based styles)
+                    tests.set_cell_size(tuple(o[1]))
                 elif o[0] == "next":
                     try:
                         fr = next(it)
@@ -221,6 +253,7 @@ def run_one(case, cached):
                 res["rows"].append([code, frame, image.tell(), -99 if loop_no is None else loop_no,
                                     tracker.unclosed(), size_index(image)])
                 res["reqs"].append([list(r) for r in cur])
+                res["settings"].append(setting_of(image))
                 res["exc"].append(exc)
     finally:
         try:
@@ -232,6 +265,8 @@ def run_one(case, cached):
             if keep is not None:
                 keep.close()
             _common.get_terminal_size = saved_ts
+            term_image._cell_ratio = 0.5
+            tests.set_cell_size((10, 20))
     return res
 
 
